@@ -7,6 +7,7 @@ import NutsModel.C03.FsList
 import NutsModel.C03.External
 import NutsModel.C03.Configure
 import NutsModel.C03.Export
+import NutsModel.C03.Pem
 import NutsModel.Facts.C03
 open Lean Nuts.Drv Nuts.C03 Nuts
 
@@ -268,6 +269,14 @@ def step (st : St) (j : Json) : St × List String :=
           else s!"probe=forwarded reqs={if remote then 1 else 0}"
         s!"backend=wrapped:{backendValidates b} inner={innerT b.ctor} {probe}"
     (st, [s!"configure res={res} {b}"])
+  | "pemclass" =>
+    -- util.PemToPrivateKey / PemToPublicKey: block type + what the parser of that block type answered
+    let block : Option String := if jStr j "der" == "nopem" || jStr j "block" == "" then none else some (jStr j "block")
+    let parsed (k : String) : Parsed := let v := jStr j k; if v.startsWith "ok:" then .ok (v.drop 3).toString else .err
+    let show_ : PemOut → String
+      | .key ty => "key:" ++ ty | .nilNil => "nil-nil" | .wrongKey => "wrong-key" | .parseErr => "parse-err"
+    (st, ["pemclass priv=" ++ show_ (pemToPrivateKey Nuts.Facts.C03.pemPrivateCases Nuts.Facts.C03.pemPrivateKeyTypes block (parsed "privParsed"))
+          ++ " pub=" ++ show_ (pemToPublicKey Nuts.Facts.C03.pemPublicCases block (parsed "pubParsed"))])
   | "fsexport" | "fs2vault" =>
     -- crypto/cmd fsToOtherStorage: directory tree (regular files, walk order) -> wrapped recording target.
     -- cnames/ckinds: what the top-level key files decode to ("bad" = no PEM block, else key number); pre = names already in
